@@ -510,3 +510,33 @@ def closure_feed(fx, cb):
         if cb.q in c.closures:
             return (p, c, expr(p, c.args[0]) if c.args else "")
     return None
+
+
+def agg_payloads(body, operand):
+    """(variant, [payload ints/None]) of ADT aggregates flowing into operand (promoted constants resolved): e.g. Some(0)."""
+    out = []
+    seen = set()
+    work = [op_local(operand)] if op_place(operand) is not None else []
+    while work:
+        l = work.pop()
+        if l in seen or l is None:
+            continue
+        seen.add(l)
+        for (bb, idx, lhs, rhs) in body.def_sites(l):
+            if isinstance(rhs, Call):
+                continue
+            if rhs["k"] == "agg" and rhs["ak"] == "adt":
+                out.append((rhs["variant"], [op_int(o) for o in rhs.get("ops", [])]))
+            elif rhs["k"] in ("use", "cast") and op_place(rhs["op"]) is not None:
+                work.append(op_local(rhs["op"]))
+            elif rhs["k"] == "use" and "promoted" in rhs["op"]:
+                pb = body.j.get("promoted", [])
+                pi = rhs["op"]["promoted"]
+                if pi < len(pb):
+                    for bl in pb[pi]:
+                        for s in bl["stmts"]:
+                            if s["k"] == "assign" and s["rv"]["k"] == "agg" and s["rv"]["ak"] == "adt":
+                                out.append((s["rv"]["variant"], [op_int(o) for o in s["rv"].get("ops", [])]))
+            elif rhs["k"] == "ref":
+                work.append(pl_local(rhs["place"]))
+    return out
